@@ -393,3 +393,17 @@ def rule_refused_scope_masks(ctx, facts, rule):
               "`other.set_local_parent()` is invisible, current_local_parent() still answers with the enclosing scope's parent and a "
               "LocalSpan entered under `other` is delivered under the enclosing parent, in its trace", extra="refusal-invisible")
 
+
+def rule_unregister_always_pops(ctx, facts, rule):
+    """Releasing a scope removes a scope: every returning path of unregister_and_collect passes Vec::pop on span_lines
+    (a release that keeps the line -- e.g. because the epochs differ -- leaves a ghost local parent behind for the rest of
+    the thread's life: closures run, spans record and contexts exist with no local parent set)."""
+    fn = ctx.need_fn(facts, STACK + "unregister_and_collect", rule)
+    if fn is None:
+        return
+    pops = [b for b in fn.calls_re(r"alloc::vec::Vec::<T, A>::pop$", cleanup=False) if "SpanLine>" in fn.term(b)["arg_tys"][0]]
+    ok, wit = fn.must_pass([0], pops) if pops else (False, None)
+    ctx.check(ok, rule, fn.path, fn.span, "releasing a scope pops the scope stack on every returning path", "pop sites %s" % pops,
+              "a path returns at bb%s without popping span_lines: the released scope stays on the stack as the thread's local parent" % wit,
+              extra="always-pops")
+
